@@ -78,9 +78,25 @@ def call(it, objv, name, *args, **kwargs):
     return it.call_value(m, list(args), dict(kwargs), None)
 
 
-def run(program, thunk, max_paths=48):
+def run(program, thunk, max_paths=48, sticky=False, stubs=None):
     """explore() and return list of Path."""
-    return explore(program, thunk, max_paths=max_paths)
+    def conf(it):
+        it.sticky = sticky
+        if stubs:
+            it.stubs.update(stubs)
+
+    return explore(program, thunk, max_paths=max_paths, configure=conf)
+
+
+def stub_grad_lists(it, func, env, node):
+    """Stub for methods returning one gradient vector per network (assume/guarantee split)."""
+    selfv = env.get(func.params[0])
+    nets = state_networks(it, selfv)
+    out = []
+    for n in nets:
+        t = it.new_tobj("tensor", T.sym("G_%s@%s" % (n, func.name)), ("P_" + n,), "fresh")
+        out.append(VTens(t))
+    return it.new_list(out)
 
 
 def single(paths, what=""):
